@@ -8,7 +8,7 @@ import sys
 HERE = os.path.dirname(os.path.abspath(__file__))
 sys.path.insert(0, HERE)
 
-TRANSLATORS = []  # module names, filled as translators are added
+TRANSLATORS = ["translate_registration"]  # module names
 
 
 def write_if_changed(path, txt):
